@@ -116,6 +116,12 @@ def parse_unit(path):
                 last = None
             elif word == "unit":
                 segs.append(("unit", rest))
+            elif word == "pin":
+                # //@pin <file> :: <item> sha256=<hex16>   (trusted text that an assumed contract was read from)
+                m = re.match(r"^(\S+)\s*::\s*(.*?)\s+sha256=([0-9a-f]+|\?)$", rest)
+                if not m:
+                    raise ExtractError("%s:%d: bad pin directive" % (path, ln))
+                segs.append(("pin", m.group(1), m.group(2), m.group(3), ln))
             elif word == "safety_props":
                 segs.append(("safety_props", rest.split()))
             elif word == "strip_paths":
@@ -609,6 +615,40 @@ def expand_extract(d, log, meta, unit_path):
     return "%s%s {\n%s\n}\n%s" % (attrs, header_text.rstrip(), body, twins)
 
 
+def _check_pin(seg, meta, unit_path):
+    """An assumed contract (e.g. an SQL-backed entity function) is only valid for the
+    source text it was read from: hash the normalised token text of the item and
+    withdraw the contract (UNDECIDED, never an alarm) when it differs."""
+    import hashlib
+    _, path, item, want, ln = seg
+    src = _read_repo(path)
+    toks = lex(src)
+    cands = X.find_item(toks, item)
+    texts = []
+    for s_, e_, ki, dp in cands:
+        texts.append(norm(toks[s_:e_ + 1]))
+    if not cands and norm(item).startswith("fn "):
+        # a method: look inside every impl / trait block of the file
+        name = norm(item).split(" ")[1]
+        for k, ki, s_, e_ in X.iter_items(toks):
+            if k in ("impl", "trait"):
+                _h, bi = X._impl_header(toks, ki)
+                be = match_close(toks, bi)
+                for k2, ki2, s2, e2 in X.iter_items(toks, bi + 1, be):
+                    if k2 == "fn" and X._name_after(toks, ki2) == name:
+                        texts.append(norm(toks[s2:e2 + 1]))
+    if not texts:
+        raise ExtractError("%s:%d: pinned item `%s` not found in %s (lost anchor)" % (unit_path, ln, item, path))
+    got = hashlib.sha256("\n".join(texts).encode()).hexdigest()[:16]
+    meta.setdefault("pins", []).append(dict(path=path, item=item, sha256=got))
+    if want == "?":
+        return "// pin %s :: %s sha256=%s (unpinned: fill in)\n" % (path, item, got)
+    if got != want:
+        raise ExtractError("%s:%d: pinned text changed: %s :: %s (recorded %s, now %s) - the assumed contract read from it is withdrawn"
+                           % (unit_path, ln, path, item, want, got))
+    return "// pin %s :: %s sha256=%s ok\n" % (path, item, got)
+
+
 def compose(unit_path):
     _TLS.strip = set()
     log = X.Log()
@@ -636,6 +676,8 @@ def compose(unit_path):
             meta["unit_name"] = seg[1]
         elif seg[0] == "safety_props":
             meta["safety_props"] = seg[1]
+        elif seg[0] == "pin":
+            parts.append(_check_pin(seg, meta, unit_path))
     text = "\n".join(parts) + "\n"
     # line map
     fn_ranges = {}
